@@ -136,3 +136,14 @@ package clickhouse_transpiler
 //@   flag checks=-index,-assert
 //@   modifies nothing
 //@   check attribute-name-is-one-escaped-literal: result1 == nil ==> result0 == "anyIf(toFloat64OrNull(val), key == " + ("'" + sqlEsc(s.attr) + "'") + ")"
+
+// Tag names and tag values of a window are read from the key/value index (dated by
+// UTC day): same date coverage as the other index reads.
+//@ func (*AllTagsRequestPlanner).Process [C13]
+//@   flag checks=-index,-assert
+//@   at sql_select.Ge lower-date-covers-window-start: isDateCol(arg0) ==> fmtDay <= fdiv(ctx.From.UnixNano(), 86400000000000)
+//@   at sql_select.Le upper-date-covers-window-end: isDateCol(arg0) ==> fmtDay >= fdiv(ctx.To.UnixNano(), 86400000000000)
+//@ func (*AllValuesRequestPlanner).Process [C13]
+//@   flag checks=-index,-assert
+//@   at sql_select.Ge lower-date-covers-window-start: isDateCol(arg0) ==> fmtDay <= fdiv(ctx.From.UnixNano(), 86400000000000)
+//@   at sql_select.Le upper-date-covers-window-end: isDateCol(arg0) ==> fmtDay >= fdiv(ctx.To.UnixNano(), 86400000000000)
